@@ -9,6 +9,8 @@ Streams
                      matrix exponentials of the step generators, leaf times from the Lean Model,
                      matrices from Jordan-Wigner ladders of the Lean Spec (scipy expm, 1e-8);
                      LSN generator lists (order, pairs, positions, coefficients) from the Model
+  symmetric-step-order  one symmetric step on even and odd registers (4, 5, 6 modes) vs the Model's mirrored
+                     generator order; time-reversal symmetry and local error order as Model-independent oracle
   exactness          commuting Hamiltonians: circuit = exp(-iHt) for every order / step count;
                      convergence: error ratios under step doubling (test with generous margins)
 """
@@ -29,9 +31,9 @@ OPEN_STATEMENTS = [
     'suzuki_palindrome, suzuki_times_sum).  The harness only *tests* error ratios under step doubling, with generous margins',
     'NOT PROVED: exactness for commuting pieces as a statement about matrix exponentials (checked numerically: oracle)',
     'NOT PROVED: controlled variants (identity on control 0, phase of the constant) — oracle only',
-    'lsn_asym_step_is_product_formula covers the asymmetric linear swap network step (real hopping part, density-density part, '
-    'number operators); the imaginary hopping part, the symmetric step, SPLIT_OPERATOR and LOW_RANK emitters are covered by the '
-    'product-formula correspondence / oracle only',
+    'lsn_asym/sym_step_is_product_formula cover the linear swap network steps (real hopping part, density-density part, '
+    'number operators: total coefficients per generator kind); the imaginary (oriented) hopping part, the mirrored order of the '
+    'symmetric step, SPLIT_OPERATOR and LOW_RANK emitters are covered by the product-formula correspondence / oracle only',
     'that the real circuits equal the product of exponentials of the Model generator lists is a 1e-8 float comparison',
 ]
 ASSUMPTIONS = [
@@ -226,7 +228,7 @@ def recursion_stream(ctx):
 
 # ------------------------------------------------------------------ Hamiltonians and references
 
-def rand_dch(of, rng, n, commuting=False, real=False):
+def rand_dch(of, rng, n, commuting=False, real=False, dense=False):
     T = np.zeros((n, n), dtype=complex)
     for p in range(n):
         T[p, p] = rng.randint(-4, 4) / 4
@@ -234,11 +236,13 @@ def rand_dch(of, rng, n, commuting=False, real=False):
             if commuting:
                 continue
             c = complex(rng.randint(-4, 4) / 4, 0 if real else rng.randint(-4, 4) / 4)
+            if dense:
+                c = complex(rng.choice([-1, -0.75, -0.5, 0.5, 0.75, 1]), 0 if real else rng.choice([-0.75, -0.25, 0.5, 1]))
             T[p, q], T[q, p] = c, c.conjugate()
     V = np.zeros((n, n))
     for p in range(n):
         for q in range(p):
-            V[p, q] = V[q, p] = rng.randint(-4, 4) / 4
+            V[p, q] = V[q, p] = rng.choice([-1, -0.5, 0.25, 0.75, 1]) if dense else rng.randint(-4, 4) / 4
     if not commuting and n >= 2 and not np.any(T - np.diag(np.diag(T))):
         T[0, 1] = T[1, 0] = 0.5
     const = rng.choice([0.0, 0.75, -1.5])
@@ -475,7 +479,10 @@ def formula_stream(ctx, lad):
     for k in range(max(1, nham // 2)):
         todo.append(('LR', eightfold(ctx.of, rng, 2), 4))
     for alg, ham, n in todo:
-        ref = Reference(ctx, lad, alg, ham, n)
+        ok, ref = safe(st, 'building the reference (decompositions of the library)', {'algorithm': alg,
+                       'hamiltonian': ham_json(alg, ham)}, lambda: Reference(ctx, lad, alg, ham, n))
+        if not ok:
+            continue
         orders = [0] if alg == 'LR' else [0, 1, 2]
         for order in orders:
             for n_steps in ([1, 2, 3] if order < 2 else [1, 2]):
@@ -507,6 +514,66 @@ def ham_json(alg, ham):
     return {'constant': ham.constant, 'one_body': ham.one_body, 'two_body': ham.two_body}
 
 
+def symmetric_step_stream(ctx, lad):
+    """one symmetric step on even and odd registers: the mirrored order of the second swap network matters only
+    for non-commuting terms and shows only when the two networks are compared generator by generator"""
+    st = Stream('symmetric-step-order', 'ONE symmetric (order 1) step of LINEAR_SWAP_NETWORK and SPLIT_OPERATOR on registers '
+                'of even and odd size (4; with source drift / thorough also 5 and 6 modes), dense non-commuting '
+                'DiagonalCoulombHamiltonians, uncontrolled and controlled: circuit unitary vs the product of exponentials in '
+                'the mirrored order of the Model generator list lsnSymStep (1e-8); oracle: the one-step unitary is a '
+                'palindrome, U(t) U(-t) = 1 (time-reversal symmetry of a symmetric formula), and its error against exp(-iHt) '
+                'falls at least 5-fold when t is halved (3rd-order local error: asymptotically 8; a first-order step gives 4); '
+                'distinct = (algorithm, n, hamiltonian, controlled)')
+    rng = rng_for(ctx.seed, 'c15-symstep')
+    big = ctx.tier == 'thorough' or ctx.drift
+    sizes = [4, 5, 6] if big else [4]
+    lad.prefetch(sizes)
+    for n in sizes:
+        for alg in ('LSN', 'SO'):
+            if alg == 'SO' and n == 6 and ctx.tier != 'thorough':
+                continue
+            ham = rand_dch(ctx.of, rng, n, dense=True, real=(n == 5))
+            ok, ref = safe(st, 'building the reference (decompositions of the library)', {'algorithm': alg,
+                           'hamiltonian': ham_json(alg, ham)}, lambda: Reference(ctx, lad, alg, ham, n))
+            if not ok:
+                continue
+            time = 0.5
+            for controlled in ((False, True) if n <= 5 else (False,)):
+                case = {'algorithm': alg, 'n': n, 'order': 1, 'n_steps': 1, 'time': time, 'controlled': controlled,
+                        'hamiltonian': ham_json(alg, ham)}
+                st.case(case)
+                st.count('alg:%s n:%d' % (alg, n))
+                ok, U = real_unitary(ctx, st, case, alg, ham, n, time, 1, 1, controlled, False)
+                if not ok:
+                    continue
+                E, _, R = expected_unitary(ctx, ref, time, 1, 1, False)
+                compare(st, case, 'formula: one symmetric step = mirrored product of the Model generator list (%s)' % alg,
+                        U, E, ref.const, time, controlled, R)
+                if controlled:
+                    continue
+                # Spec oracle, independent of the Model
+                ok, Um = real_unitary(ctx, st, case, alg, ham, n, -time, 1, 1, False, False)
+                if ok:
+                    st.float_comparisons += 1
+                    st.count('oracle:time-reversal')
+                    d = phase_diff(U @ Um, np.eye(2 ** n))
+                    if not d <= TOL:
+                        st.violate('symmetric step is not time-reversal symmetric: U(t) U(-t) != 1 (%s)' % alg, case,
+                                   {'distance_up_to_global_phase': float(d)})
+                errs = []
+                for tt in (0.2, 0.1):
+                    ok, Ut = real_unitary(ctx, st, case, alg, ham, n, tt, 1, 1, False, False)
+                    if ok:
+                        errs.append(phase_diff(Ut, expm_h(ref.H, tt)))
+                if len(errs) == 2 and errs[0] >= 1e-7:
+                    st.float_comparisons += 1
+                    st.count('oracle:local-error-order')
+                    if not errs[1] * 5.0 <= errs[0]:
+                        st.violate('local error of one symmetric step does not fall 5-fold when the time is halved (%s)'
+                                   % alg, case, {'error_t': errs[0], 'error_t_half': errs[1]})
+    return st
+
+
 def exactness_stream(ctx, lad):
     st = Stream('exactness-and-convergence', 'commuting Hamiltonians (diagonal hopping matrix / density-density interaction '
                 'operators): circuit = exp(-iHt) (H from Spec ladders) for every algorithm, order 0-3, n_steps 1-3, controlled '
@@ -521,7 +588,10 @@ def exactness_stream(ctx, lad):
                    ('SO', rand_dch(ctx.of, rng, 3, commuting=True), 3),
                    ('LR', eightfold(ctx.of, rng, 2, commuting=True), 4)]
         for alg, ham, n in configs:
-            ref = Reference(ctx, lad, alg, ham, n)
+            ok, ref = safe(st, 'building the reference (decompositions of the library)', {'algorithm': alg,
+                           'hamiltonian': ham_json(alg, ham)}, lambda: Reference(ctx, lad, alg, ham, n))
+            if not ok:
+                continue
             exact = lambda t: expm_h(ref.H, t)  # noqa: E731
             for order in ([0] if alg == 'LR' else [0, 1, 2, 3]):
                 for n_steps in ([1, 2, 3] if order < 3 else [1]):
@@ -547,15 +617,20 @@ def exactness_stream(ctx, lad):
     margins = {0: 1.4, 1: 2.8, 2: 9.0}
     for rep in range(reps):
         configs = [('LSN', rand_dch(ctx.of, rng, 3), 3), ('SO', rand_dch(ctx.of, rng, 3), 3),
-                   ('LR', eightfold(ctx.of, rng, 2), 4)]
+                   ('LR', eightfold(ctx.of, rng, 2), 4),
+                   ('LSN', rand_dch(ctx.of, rng, 4, dense=True), 4), ('SO', rand_dch(ctx.of, rng, 4, dense=True), 4)]
         for alg, ham, n in configs:
-            ref = Reference(ctx, lad, alg, ham, n)
+            ok, ref = safe(st, 'building the reference (decompositions of the library)', {'algorithm': alg,
+                           'hamiltonian': ham_json(alg, ham)}, lambda: Reference(ctx, lad, alg, ham, n))
+            if not ok:
+                continue
             time = 0.5
             E = expm_h(ref.H, time)
             for order in ([0] if alg == 'LR' else [0, 1, 2]):
-                case = {'algorithm': alg, 'convergence': True, 'order': order, 'time': time, 'hamiltonian': ham_json(alg, ham)}
+                case = {'algorithm': alg, 'convergence': True, 'n': n, 'order': order, 'time': time,
+                        'hamiltonian': ham_json(alg, ham)}
                 st.case(case)
-                st.count('convergence:%s order %d' % (alg, order))
+                st.count('convergence:%s n %d order %d' % (alg, n, order))
                 errs = []
                 for n_steps in (2, 4):
                     ok, U = real_unitary(ctx, st, case, alg, ham, n, time, n_steps, order, False, False)
@@ -576,4 +651,4 @@ def exactness_stream(ctx, lad):
 
 def run(ctx):
     lad = Ladders(ctx.driver)
-    return [recursion_stream(ctx), formula_stream(ctx, lad), exactness_stream(ctx, lad)]
+    return [recursion_stream(ctx), formula_stream(ctx, lad), symmetric_step_stream(ctx, lad), exactness_stream(ctx, lad)]
